@@ -23,7 +23,10 @@ def model_docs(ctx, tier):
     """[(text, model record)] -- every document TLC printed, deduplicated by text"""
     out, seen = [], set()
     for mod, cfg in (QUICK if tier == "quick" else THOROUGH):
-        r = tlc.run(mod, cfg, timeout=3000, keep_raw=False)
+        # with VIEW, which witness document represents an abstract state depends on the exploration order: one worker (and a fixed
+        # fingerprint function) makes the enumerated document set the same on every run
+        view = cfg.endswith("v.cfg")
+        r = tlc.run(mod, cfg, timeout=3000, keep_raw=False, workers=1 if view else 16, extra=("-fp", "0") if view else ())
         ctx.ev.add_tlc("%s (%s)" % (mod, cfg), r)
         if not r.ok:
             raise Machinery("%s/%s: TLC reports %s" % (mod, cfg, r.violated))
